@@ -15,6 +15,7 @@ from ..lib import core
 from ..lib.core import Failure, Disagreement
 from ..extract import compression as _ex
 from ..extract import datasetshape as _ex2
+from ..extract import datasetdtype as _ex3
 
 PROP = "C01"
 LEAN_MODULE = "NixModel.Props.C01"
@@ -52,6 +53,10 @@ THEOREMS = [
     "Nix.C01.C01_read_paths_agree",
     "Nix.C01.C01_ellipsis",
     "Nix.C01.C01_shrink_grow_fill",
+    "Nix.C01.C01_datatype_members",
+    "Nix.C01.C01_dtype_handed_through",
+    "Nix.C01.C01_spelling_exact",
+    "Nix.C01.C01_spelling_created_type",
 ]
 ASSUMPTIONS = [
     "libhdf5/h5py storage is replaced by an executable stand-in (NdArray: extent change keeps surviving multi-indices "
@@ -100,6 +105,7 @@ TEXTS = ["", "a", " ", "abc", "äöü", "ß", "€", "日本語", "😀", "é",
 def extract(repo):
     out = dict(_ex.extract(repo))
     out.update(_ex2.extract(repo))
+    out.update(_ex3.extract(repo))
     return out
 
 
@@ -120,6 +126,186 @@ def np_dtype(name):
     if name == "string":
         return nixio.DataType.String
     return np.dtype(name)
+
+
+# ---------------------------------------------------------------------------------------
+# spellings: the same element type / the same data written the way a user may write it.  The MEANING of a spelling
+# is what NumPy says it is (np.dtype(spelling), np.asarray(spelled data)); the case keeps the meaning in its
+# canonical fields ("dtype", "dt"/"shape"/"flat") and the spelling beside it ("dspell", "shspell", "sp").
+
+NP_NAMES = ["uint8", "uint16", "uint32", "uint64", "int8", "int16", "int32", "int64", "float32", "float64", "bool_",
+            "str_", "double", "single", "intc", "uintc", "longlong", "ulonglong", "short", "ushort", "byte", "ubyte",
+            "intp", "uintp", "int_", "uint", "long", "ulong"]
+NIX_MEMBERS = ["UInt8", "UInt16", "UInt32", "UInt64", "Int8", "Int16", "Int32", "Int64", "Float", "Double", "Bool",
+               "String"]
+DTYPE_OBJS = ["u1", "<u2", ">u2", "<u4", ">u4", "<u8", ">u8", "i1", "<i2", ">i2", "<i4", ">i4", "<i8", ">i8", "<f4",
+              ">f4", "<f8", ">f8", "?", "U"]
+TYPE_STRINGS = ["u1", "|u1", "u2", "<u2", ">u2", "=u2", "u4", "<u4", ">u4", "u8", "<u8", ">u8", "=u8", "i1", "|i1",
+                "i2", "<i2", ">i2", "i4", "<i4", ">i4", "=i4", "i8", "<i8", ">i8", "f4", "<f4", ">f4", "=f4", "f8",
+                "<f8", ">f8", "=f8", "b1", "|b1", "?", "b", "B", "h", "H", "i", "I", "l", "L", "q", "Q", "p", "P",
+                "f", "d", "uint8", "uint16", "uint32", "uint64", "int8", "int16", "int32", "int64", "float32",
+                "float64", "bool", "int", "uint", "float", "double", "single", "byte", "ubyte", "short", "ushort",
+                "intc", "uintc", "long", "ulong", "longlong", "ulonglong", "int_", "intp", "uintp",
+                "str", "U", "<U", "U3", "str_"]
+PY_TYPES = {"bool": bool, "int": int, "float": float, "str": str}
+ALL_DSPELL = (["py:" + n for n in PY_TYPES] + ["np:" + n for n in NP_NAMES] + ["nix:" + n for n in NIX_MEMBERS]
+              + ["dt:" + n for n in DTYPE_OBJS] + ["s:" + n for n in TYPE_STRINGS])
+
+
+def dspell_obj(key):
+    """the Python object a dtype spelling stands for"""
+    import nixio
+    cls, _, name = key.partition(":")
+    if cls == "py":
+        return PY_TYPES[name]
+    if cls == "np":
+        return getattr(np, name)
+    if cls == "nix":
+        return getattr(nixio.DataType, name)
+    if cls == "dt":
+        return np.dtype(name)
+    if cls == "s":
+        return name
+    raise core.InfraError("unknown dtype spelling %r" % (key,))
+
+
+def canon_dtype(dt):
+    """one of the 12 element types for what NumPy calls dt ('string' for its text type), None for anything else"""
+    dt = np.dtype(dt)
+    if dt.kind == "U":
+        return "string"
+    if dt.kind == "b":
+        return "bool"
+    if dt.kind in "iuf" and dt.name in DTYPES:
+        return dt.name
+    return None
+
+
+def dspell_meaning(key):
+    """what NumPy means by the spelling"""
+    return canon_dtype(np.dtype(dspell_obj(key)))
+
+
+def text_spelling_stored(key):
+    """of the spellings NumPy reads as text: nixio's text type itself (DataType.String is np.str_) and NumPy dtype
+    objects of kind U, which compare equal to it, create a text array; the builtin `str` and type strings reach
+    h5py as they are, and h5py has no fixed-width unicode type (TypeError)"""
+    return key in ("np:str_", "nix:String") or key.startswith("dt:")
+
+
+_BY_MEANING = {}
+
+
+def spellings_of(dtname):
+    """all spelling keys NumPy reads as the element type dtname, grouped by class of spelling"""
+    if not _BY_MEANING:
+        for key in ALL_DSPELL:
+            try:
+                m = dspell_meaning(key)
+            except Exception:
+                m = None
+            if m is not None:
+                _BY_MEANING.setdefault(m, {}).setdefault(key.partition(":")[0], []).append(key)
+    return _BY_MEANING.get(dtname, {})
+
+
+def create_dtype_arg(c):
+    """the dtype argument of create_data_array as the case spells it (default: numpy dtype object / DataType.String)"""
+    if c.get("dspell"):
+        return dspell_obj(c["dspell"])
+    return np_dtype(c["dtype"])
+
+
+def create_dtype_meaning(c):
+    """(element type NumPy means by the dtype argument | None if not given, does nixio store it as given)"""
+    if c["dtype"] is None:
+        return None, True
+    if c.get("dspell"):
+        m = dspell_meaning(c["dspell"])
+        return m, (m != "string" or text_spelling_stored(c["dspell"]))
+    return ("string" if c["dtype"] == "numpytext" else c["dtype"]), c["dtype"] != "numpytext"
+
+
+def create_shape_arg(c):
+    shape = c["shape"]
+    sp = c.get("shspell")
+    if sp == "list":
+        return list(shape)
+    if sp == "npint":
+        return tuple(np.int64(x) if i % 2 == 0 else np.int32(x) for i, x in enumerate(shape))
+    if sp == "array":
+        return np.array(shape, dtype=np.int64)
+    return tuple(shape)
+
+
+def _nested(x, seq):
+    if isinstance(x, list):
+        return seq(_nested(y, seq) for y in x)
+    return x
+
+
+def spell_arr(a):
+    """ARR json -> the object handed to nixio: the canonical ndarray, or the same data spelled as the case says"""
+    base = arr_to_np(a)
+    sp = a.get("sp")
+    if not sp:
+        return base
+    if sp == "list":
+        return base.tolist()
+    if sp == "tuple":
+        return _nested(base.tolist(), tuple)
+    if sp == "range":
+        fl = [int(v) for v in base.reshape(-1)]
+        step = (fl[1] - fl[0]) if len(fl) > 1 else 1
+        return range(fl[0], fl[0] + step * len(fl), step)
+    if sp == "mv":
+        return memoryview(base)
+    if sp == "strided":
+        if base.ndim == 0:
+            return base
+        big = np.empty(tuple(2 * n + 1 for n in base.shape), dtype=base.dtype)
+        if base.dtype == object:
+            big[...] = "pad"
+        else:
+            big[...] = np.ones((), dtype=base.dtype)
+        view = big[tuple(slice(1, 2 * n + 1, 2) for n in base.shape)]
+        view[...] = base
+        return view
+    if sp == "fortran":
+        return np.asfortranarray(base)
+    if sp == "swapped":
+        return base.byteswap().view(base.dtype.newbyteorder())
+    if sp == "ustr":
+        flat = [str(v) for v in base.reshape(-1)]
+        width = max([len(s) for s in flat] + [1])
+        return np.array(flat, dtype="<U%d" % width).reshape(base.shape)
+    raise core.InfraError("unknown data spelling %r" % (sp,))
+
+
+def arr_meaning(a):
+    """(canonical ndarray, element type name) NumPy reads from the spelled data; None when it is not one of the 12
+    element types (then the property says nothing about this source)"""
+    if not a.get("sp"):
+        return arr_to_np(a), a["dt"]
+    x = np.asarray(spell_arr(a))
+    dtn = canon_dtype(x.dtype) if x.dtype != object else "string"
+    if dtn is None:
+        return None, None
+    if dtn == "string":
+        out = np.empty(x.size, dtype=object)
+        for i, v in enumerate(x.reshape(-1)):
+            out[i] = str(v)
+        return out.reshape(x.shape), dtn
+    return np.asarray(x.astype(x.dtype.newbyteorder("=")), dtype=mirror_dtype(dtn), order="C"), dtn
+
+
+def spelling_faithful(a):
+    """does NumPy read the spelled data as exactly the canonical literal (type, shape, bit patterns)?"""
+    try:
+        x, dtn = arr_meaning(a)
+    except Exception:
+        return False
+    return x is not None and dtn == a["dt"] and list(x.shape) == list(a["shape"]) and np_flat(x, dtn) == a["flat"]
 
 
 def arr_to_np(a):
@@ -258,11 +444,11 @@ class Session:
         c = self.case["create"]
         kw = {}
         if c["dtype"] is not None:
-            kw["dtype"] = np_dtype(c["dtype"])
+            kw["dtype"] = create_dtype_arg(c)
         if c["shape"] is not None:
-            kw["shape"] = tuple(c["shape"])
+            kw["shape"] = create_shape_arg(c)
         if c["data"] is not None:
-            kw["data"] = arr_to_np(c["data"])
+            kw["data"] = spell_arr(c["data"])
         kw["compression"] = getattr(self.nixio.Compression, self.case["ac"])
         self.da = self.b.create_data_array("arr", "t", **kw)
 
@@ -326,11 +512,11 @@ def apply_step(sess, st, k=1):
             return {"r": err_name(e)}
     try:
         if op == "write":
-            da.write_direct(arr_to_np(st[1]))
+            da.write_direct(spell_arr(st[1]))
         elif op == "assign":
-            da[spell_index(st[1], k)] = arr_to_np(st[2])
+            da[spell_index(st[1], k)] = spell_arr(st[2])
         elif op == "append":
-            da.append(arr_to_np(st[1]), axis=st[2])
+            da.append(spell_arr(st[1]), axis=(np.int64(st[2]) if k % 3 == 2 else st[2]))
         elif op == "resize":
             da.data_extent = tuple(st[1])
         elif op == "reopen":
@@ -540,27 +726,31 @@ def mirror_step(mirror, dtn, st):
     op = st[0]
     if op == "reopen":
         return "ok", mirror
+    if op in ("write", "assign", "append"):
+        src, src_dt = arr_meaning(st[2] if op == "assign" else st[1])
+        if src is None:
+            return "any", None          # a source NumPy does not read as one of the 12 element types
     if op == "write":
-        return _mirror_assign(mirror, (slice(None),), arr_to_np(st[1]), st[1]["dt"], dtn)
+        return _mirror_assign(mirror, (slice(None),), src, src_dt, dtn)
     if op == "assign":
         if _items(st[1])[0] == "n":      # da[None] = x is nixio's spelling of "the whole array"
-            return _mirror_assign(mirror, (slice(None),), arr_to_np(st[2]), st[2]["dt"], dtn)
+            return _mirror_assign(mirror, (slice(None),), src, src_dt, dtn)
         ix = to_index(st[1])
         if has_bad_step(st[1]):
             return "any", None          # numpy accepts negative steps, h5py does not: not a C01 matter
         if n_plain(st[1]) > mirror.ndim:
             return "refuse", None
-        return _mirror_assign(mirror, ix, arr_to_np(st[2]), st[2]["dt"], dtn)
+        return _mirror_assign(mirror, ix, src, src_dt, dtn)
     if op == "append":
-        d = np.ascontiguousarray(arr_to_np(st[1]))      # documented: the result has ndim >= 1
+        d = np.ascontiguousarray(src)      # documented: the result has ndim >= 1
         if append_valid(mirror.shape, d.shape, st[2]):
-            conv = convert_exact(d, st[1]["dt"], dtn)
+            conv = convert_exact(d, src_dt, dtn)
             if conv is None:
                 # data that cannot be stored exactly: if it has no elements the append still changes the shape
                 if d.size == 0:
                     return "ok", np.concatenate([mirror, np.empty(d.shape, dtype=mirror.dtype)], axis=st[2])
                 return "any", None
-            return ("ok" if kind_of(st[1]["dt"]) == kind_of(dtn) or d.size == 0 else "maybe"), \
+            return ("ok" if kind_of(src_dt) == kind_of(dtn) or d.size == 0 else "maybe"), \
                 np.concatenate([mirror, conv], axis=st[2])
         return "refuse", None
     if op == "resize":
@@ -576,32 +766,42 @@ def mirror_step(mirror, dtn, st):
 
 
 def expected_create(case):
-    """('ok', dtype name, mirror) | ('refuse', ..) | ('any', ..) from the documented creation rules"""
+    """('ok', dtype name, mirror) | ('maybe', ..) | ('refuse', ..) | ('any', ..) from the documented creation rules.
+    The element type is what NumPy means by the dtype argument as it is spelled, the data what NumPy reads from the
+    data argument as it is spelled.  'maybe': a spelling of text that the storage layer may refuse (the builtin
+    `str`, 'U'); if the array is created it must be a text array like any other."""
     c = case["create"]
+    meant, stored = create_dtype_meaning(c)
+    if c["dtype"] is not None and meant is None:
+        return "any", None, None      # a dtype argument outside the 12 element types
+    ok = "ok" if stored else "maybe"
     if c["data"] is None:
         if c["shape"] is None:
             return "refuse", None, None
-        dtn = c["dtype"] or "float64"
+        dtn = meant or "float64"
         m = np.empty(tuple(c["shape"]), dtype=mirror_dtype(dtn))
         m[...] = fill_of(dtn)
-        return "ok", dtn, m
-    d = np.ascontiguousarray(arr_to_np(c["data"]))
+        return ok, dtn, m
+    src, src_dt = arr_meaning(c["data"])
+    if src is None:
+        return "any", None, None
+    d = np.ascontiguousarray(src)
     if c["shape"] is not None and tuple(c["shape"]) != d.shape:
         return "refuse", None, None
-    dtn = c["dtype"] or c["data"]["dt"]
-    if c["dtype"] is None and c["data"]["dt"] == "string":
+    dtn = meant or src_dt
+    if c["dtype"] is None and src_dt == "string":
         return "any", None, None      # text without dtype=DataType.String: refused by h5py (C12 looks at the leftovers)
-    conv = convert_exact(d, c["data"]["dt"], dtn)
+    conv = convert_exact(d, src_dt, dtn)
     if conv is None:
-        if d.size == 0 and kind_of(dtn) != "text" and kind_of(c["data"]["dt"]) != "text":
+        if d.size == 0 and kind_of(dtn) != "text" and kind_of(src_dt) != "text":
             conv = np.empty(d.shape, dtype=mirror_dtype(dtn))
         else:
             return "any", None, None  # data that the element type cannot hold exactly: the property is silent
     m = np.empty(d.shape, dtype=mirror_dtype(dtn))
     m[...] = conv
-    if kind_of(c["data"]["dt"]) == "float" and kind_of(dtn) == "bool" and d.size:
+    if kind_of(src_dt) == "float" and kind_of(dtn) == "bool" and d.size:
         return "any", None, None      # h5py has no conversion from floats to booleans
-    return "ok", dtn, m
+    return ok, dtn, m
 
 
 def _same(obs_shape, obs_flat, mirror, dtn):
@@ -631,6 +831,8 @@ def oracle_case(case, path):
                                "refused", "Block.create_data_array"), 1
             return None, 1
         if created != "ok":
+            if exp == "maybe":
+                return None, 1
             return Failure("create_data_array refused valid arguments", case, created, "created",
                            "Block.create_data_array"), 1
 
@@ -741,6 +943,10 @@ class Gen:
     def __init__(self, rng):
         self.rng = rng
         self.dist = {}
+        # an array stored byte-swapped (dtype '>i4', or the type taken from byte-swapped data) is converted from / to
+        # other element types by libhdf5's software path, whose lossy results (wrap instead of saturation, NaN
+        # payloads) differ from the native one the model describes: such arrays get sources of their own type only
+        self.same_only = False
 
     def tag(self, k):
         self.dist[k] = self.dist.get(k, 0) + 1
@@ -818,6 +1024,77 @@ class Gen:
         return {"dt": dt, "shape": list(shape),
                 "flat": [self.small_int_elem() if small else self.elem(dt) for _ in range(n)]}
 
+    def spell(self, a, tgt_dt, op):
+        """maybe spell the source array another way (nested list / tuple / range / memoryview / non-contiguous /
+        Fortran-ordered / byte-swapped / fixed-width text array).  create_data_array and append turn the argument
+        into an ndarray first (np.ascontiguousarray), so every spelling means np.asarray(spelling); a whole-array
+        write or region assignment hands anything that is not an ndarray to h5py, which reads it with the array's own
+        element type: there such spellings are used for data of the array's element type only."""
+        r = self.rng
+        if r.random() >= 0.3:
+            return a
+        dt, shape = a["dt"], a["shape"]
+        size = len(a["flat"])
+        opts = []
+        if len(shape) >= 1:
+            opts.append("strided")
+        if len(shape) >= 2:
+            opts.append("fortran")
+        same = dt == tgt_dt or (op == "create" and tgt_dt is None)
+        # byte-swapped floats of another width go through libhdf5's software conversion, which does not keep NaN
+        # payloads (a NaN stays a NaN: not a C01 matter) - swapped floats only as data of the array's own type
+        # (and libhdf5 wraps a byte-swapped integer into the integer type of the same width and other signedness
+        # where it saturates a native one: lossy either way, but not what the model describes)
+        def width(n):
+            return n.lstrip("uint")
+        if dt not in ("uint8", "int8", "bool", "string") and (same or (
+                dt in INT_RANGE and tgt_dt in INT_RANGE and width(dt) != width(tgt_dt))):
+            opts.append("swapped")
+        # text that NumPy holds as a fixed-width array ('<U…': from a list, or given so) has no HDF5 type: h5py
+        # refuses it for a numeric array with another exception class than an object array - text spellings only
+        # as data for text arrays (or at creation without dtype, where both are refused alike)
+        text_ok = dt != "string" or same
+        if dt == "string" and text_ok:
+            opts.append("ustr")
+        free = (op in ("create", "append") or dt == tgt_dt) and text_ok
+        if free and size > 0 and dt in ("int64", "float64", "bool", "string"):
+            opts += ["list", "tuple"]
+            if dt == "int64" and len(shape) == 1:
+                fl = a["flat"]
+                d = fl[1] - fl[0] if size > 1 else 1
+                if d != 0 and all(fl[i + 1] - fl[i] == d for i in range(size - 1)):
+                    opts += ["range"] * 3
+        if free and dt != "string":
+            opts.append("mv")
+        if not opts:
+            return a
+        b = dict(a, sp=r.choice(opts))
+        if not spelling_faithful(b):
+            self.tag("spell.unfaithful." + b["sp"])
+            return a
+        self.tag("spell.data.%s.%s" % (op, b["sp"]))
+        return b
+
+    def spell_dtype(self, create):
+        """maybe spell the dtype argument another way: a builtin type, a NumPy scalar type, a nixio.DataType member,
+        a np.dtype object (also byte-swapped), a type string - any spelling NumPy reads as the same element type"""
+        r = self.rng
+        dt = create["dtype"]
+        if dt is None or r.random() < 0.45:
+            return
+        by_class = spellings_of(dt)
+        d = create["data"]
+        if d is not None and d["dt"] != dt:
+            by_class = {k: [x for x in v if ">" not in x] for k, v in by_class.items()}
+        if dt == "string":
+            by_class = {k: [x for x in v if text_spelling_stored(x)] for k, v in by_class.items()}
+            by_class = {k: v for k, v in by_class.items() if v}
+        if not by_class:
+            return
+        cls = r.choice(sorted(by_class))
+        create["dspell"] = r.choice(by_class[cls])
+        self.tag("spell.dtype." + cls)
+
     def extent(self):
         return self.rng.choice([0, 1, 1, 2, 2, 2, 3, 3, 4])
 
@@ -829,7 +1106,7 @@ class Gen:
         """element type of a source array: mostly the array's own; otherwise any of the 12 (converted by HDF5 or
         refused).  Second component: the array's type when the source has another one (steers the values)."""
         r = self.rng
-        if r.random() < 0.72:
+        if r.random() < 0.72 or self.same_only:
             return dt, None
         c = r.random()
         if c < 0.45:
@@ -950,19 +1227,19 @@ class Gen:
             ddt, conv = self.data_dt(dt)
             if r.random() < 0.7:
                 self.tag("write.exact")
-                return ["write", self.arr(ddt, shape, tgt=conv)], shape
+                return ["write", self.spell(self.arr(ddt, shape, tgt=conv), dt, "write")], shape
             s = self.source_shape(shape)
             self.tag("write.other")
-            return ["write", self.arr(ddt, s, tgt=conv)], shape
+            return ["write", self.spell(self.arr(ddt, s, tgt=conv), dt, "write")], shape
         if c < 0.43:
             ixs = self.ixs(shape)
             ts = self.sel_shape(shape, ixs)
             ddt, conv = self.data_dt(dt)
             if ts is None:
                 self.tag("assign.badindex")
-                return ["assign", ixs, self.arr(ddt, [self.rng.randint(0, 2)], tgt=conv)], shape
+                return ["assign", ixs, self.spell(self.arr(ddt, [self.rng.randint(0, 2)], tgt=conv), dt, "assign")], shape
             self.tag("assign")
-            return ["assign", ixs, self.arr(ddt, self.source_shape(ts), tgt=conv)], shape
+            return ["assign", ixs, self.spell(self.arr(ddt, self.source_shape(ts), tgt=conv), dt, "assign")], shape
         if c < 0.7:
             ddt, conv = self.data_dt(dt)
             x = r.random()
@@ -973,7 +1250,7 @@ class Gen:
                 self.tag("append.valid")
                 new = list(shape)
                 new[axis] += ds[axis]
-                return ["append", self.arr(ddt, ds, tgt=conv), axis], new
+                return ["append", self.spell(self.arr(ddt, ds, tgt=conv), dt, "append"), axis], new
             if x < 0.84:
                 # axis that names no dimension, shapes equal (the D15 class) or not
                 axis = r.choice([-1, rank, -rank, rank + 1, -2, 7])
@@ -983,7 +1260,7 @@ class Gen:
                 if r.random() < 0.3 and rank:
                     ds[r.randrange(rank)] += 1
                 self.tag("append.badaxis")
-                return ["append", self.arr(ddt, ds, tgt=conv), axis], shape
+                return ["append", self.spell(self.arr(ddt, ds, tgt=conv), dt, "append"), axis], shape
             if x < 0.93:
                 axis = r.randrange(rank)
                 ds = list(shape)
@@ -992,14 +1269,14 @@ class Gen:
                     j = r.choice([i for i in range(rank) if i != axis])
                     ds[j] += r.choice([1, 2])
                     self.tag("append.shapemismatch")
-                    return ["append", self.arr(ddt, ds, tgt=conv), axis], shape
+                    return ["append", self.spell(self.arr(ddt, ds, tgt=conv), dt, "append"), axis], shape
                 self.tag("append.valid")
                 new = list(shape)
                 new[axis] += ds[axis]
-                return ["append", self.arr(ddt, ds, tgt=conv), axis], new
+                return ["append", self.spell(self.arr(ddt, ds, tgt=conv), dt, "append"), axis], new
             ds = list(shape) + [1] if r.random() < 0.5 else list(shape)[1:]
             self.tag("append.rankmismatch")
-            return ["append", self.arr(ddt, ds, tgt=conv), r.randrange(rank)], shape
+            return ["append", self.spell(self.arr(ddt, ds, tgt=conv), dt, "append"), r.randrange(rank)], shape
         if c < 0.82:
             x = r.random()
             if x < 0.85:
@@ -1073,6 +1350,21 @@ class Gen:
             create["dtype"] = dt if r.random() < 0.5 else None
             cur = None
             self.tag("create.nothing")
+        if create["data"] is not None:
+            create["data"] = self.spell(create["data"], create["dtype"], "create")
+        self.spell_dtype(create)
+        if create["dtype"] == "string" and not create.get("dspell") and r.random() < 0.2:
+            # text the way NumPy spells it (`str`, 'U', '<U3' ...): reaches h5py as fixed-width unicode
+            create["dspell"] = r.choice([k for ks in spellings_of("string").values() for k in ks
+                                         if not text_spelling_stored(k)])
+            self.tag("spell.dtype.text-not-nixio")
+        self.same_only = ">" in (create.get("dspell") or "") or (
+            create["dtype"] is None and create["data"] is not None and create["data"].get("sp") == "swapped")
+        if self.same_only:
+            self.tag("create.byte-swapped-array")
+        if create["data"] is None and create["shape"] is not None and r.random() < 0.3:
+            create["shspell"] = r.choice(["list", "npint", "array"])
+            self.tag("spell.shape." + create["shspell"])
         steps = []
         # the generator follows the array exactly (numpy mirror), so that "valid"/"malformed" tags mean what they say
         exp, dtn, mirror = expected_create({"create": create})
@@ -1154,6 +1446,37 @@ FIXED_CASES = [
 ]
 
 
+def spelling_sweep():
+    """every dtype spelling of the table once: created by shape, written, reopened / created from data of another
+    type (the model reads the spelling with its own table, Pure/NdSpell.lean; the mirror with np.dtype)"""
+    out = []
+    vals = {"float64": [0x3fb999999999999a, 0x7ff8000000000001], "float32": [0x3dcccccd, 0x7fc00001]}
+    for i, key in enumerate(ALL_DSPELL):
+        m = dspell_meaning(key)
+        if m is None:
+            continue
+        if m == "string":
+            flat = [_hex("é"), _hex("")]
+        elif m == "bool":
+            flat = [True, False]
+        elif m in vals:
+            flat = vals[m]
+        else:
+            flat = [INT_RANGE[m][0], INT_RANGE[m][1]]
+        lit = {"dt": m, "shape": [2], "flat": flat}
+        if i % 2 == 0 or m == "string":
+            create = {"dtype": m, "dspell": key, "shape": [2], "data": None}
+            steps = [["write", lit], ["reopen"], ["append", lit, 0]]
+        else:
+            create = {"dtype": m, "dspell": key, "shape": None,
+                      "data": {"dt": "int8", "shape": [3], "flat": [1, 0, 1]} if ">" not in key else
+                      dict(lit, shape=[2])}
+            steps = [["append", lit, 0], ["reopen"]]
+        out.append({"fc": "Auto", "bc": "Auto", "ac": COMPR[i % 3], "refetched": False, "create": create,
+                    "steps": steps})
+    return out
+
+
 def gen_cases(ctx):
     g = Gen(ctx.rng)
     cases = []
@@ -1209,7 +1532,8 @@ def correspondence(ctx):
     _cheap_gc()
     cases, g = gen_cases(ctx)
     corpus = core.load_corpus(PROP)
-    cases = corpus + FIXED_CASES + cases
+    sweep = spelling_sweep()
+    cases = corpus + FIXED_CASES + sweep + cases
     triples = [["resolve", a, b, c, r] for a in COMPR for b in COMPR for c in COMPR for r in (False, True)]
     model = core.run_driver(PROP, cases + triples)
     model_cases, model_triples = model[:len(cases)], model[len(cases):]
@@ -1282,6 +1606,7 @@ def correspondence(ctx):
             "samples": samples,
             "distribution": {"ops": g.dist, "impl_errors": errs_impl, "model_errors": errs_model, "ranks": ranks,
                              "dtypes": dts, "steps": nsteps, "corpus": len(corpus), "fixed": len(FIXED_CASES),
+                             "dtype_spellings_swept": len(sweep),
                              "compression_outcomes": len(compr_seen)},
             "disagreements": disagreements, "exhaustive": False}
 
@@ -1299,6 +1624,7 @@ def oracle(ctx, broken, hints):
             cases.append(h)
     cases += FIXED_CASES
     cases += [c for c in core.load_corpus(PROP) if isinstance(c, dict)]
+    cases += spelling_sweep()
     n = ctx.budget(1000, 6000)
     if broken:
         n = ctx.budget(5000, 30000)
